@@ -57,10 +57,12 @@ func (vc *VC) Declared(name string) bool { _, ok := vc.declSet[name]; return ok 
 
 func (vc *VC) HeapConstName(class string) string { return "H0_" + smtName(class) }
 
-func (vc *VC) ClassField(st types.Type, fname, leaf string) string { return vc.classField(st, fname, leaf) }
-func (vc *VC) ClassSlice(t types.Type, leaf string) string         { return vc.classSlice(t, leaf) }
+func (vc *VC) ClassField(st types.Type, fname, leaf string) string {
+	return vc.classField(st, fname, leaf)
+}
+func (vc *VC) ClassSlice(t types.Type, leaf string) string { return vc.classSlice(t, leaf) }
 
-func (e *Engine) TypeStr(t types.Type) string { return e.typeStr(t) }
+func (e *Engine) TypeStr(t types.Type) string  { return e.typeStr(t) }
 func (e *Engine) LeavesOf(t types.Type) []Leaf { return e.leavesOf(t) }
 func (e *Engine) AddrTaken(st types.Type, fname string) bool {
 	return e.addrTaken[structKey(e, st)+"|"+fname]
